@@ -16,6 +16,7 @@ From stdpp Require Import gmap strings sorting.
 Require Import Grits.Base Grits.Forms Grits.Expand Grits.TcTop Grits.Runtime.
 Require Import Grits.RuntimeFootprint Grits.proofs.RuntimeFacts Grits.proofs.Diamond Grits.proofs.Determinism Grits.proofs.AsyncSync Grits.proofs.RuntimeCheckFacts Grits.proofs.ForkJoin Grits.proofs.DeterminismExamples.
 Require Import Grits.Tc Grits.spec.RtTyping Grits.spec.Topo Grits.proofs.RtSafety Grits.proofs.RtInit Grits.proofs.RtTheorems Grits.proofs.DeterminismTyped Grits.proofs.TopoLin Grits.proofs.TopoStep Grits.proofs.TopoReach Grits.proofs.InitLinear.
+Require Import Grits.spec.SynOk Grits.proofs.RtTcSyn Grits.proofs.RtTheoremsTc Grits.proofs.DeterminismTc.
 
 Theorem C03_step_is_move : forall md D F c ch, step md D F c ch = sres_of c (move_of md D F c ch).
 Proof. exact step_move. Qed.
@@ -272,6 +273,50 @@ Example C03_init_linear_examples :
   init_linear_text example_split_text = Some false.
 Proof. exact (conj example_init_linear (conj demo_init_linear split_not_core)). Qed.
 
+(* WITH a9's PREMISES DISCHARGED (teq_rt_laws, tc_annotations_typed_rt, parse_syn_ok): for PARSED
+   programs of the core fragment the premises left are the computable rt_syn_ok and the decidable
+   init_linear; for all accepted closed programs, Topo along the runs (topo_runs) instead. *)
+Theorem C03_determinism_core_parsed : forall txt p p' md pick1 pick2 f1 f2 t1,
+  parse_string txt = POk p -> typecheck p = Accept p' -> in_fragment p' -> rt_syn_ok p = true ->
+  init_linear p' -> is_np md = false ->
+  exec_run f1 pick1 md (p_types p') (p_funs p') (init_config p') = RQuiescent t1 -> (f1 <= f2)%nat ->
+  exists t2, exec_run f2 pick2 md (p_types p') (p_funs p') (init_config p') = RQuiescent t2 /\
+             cfg_equiv t2 t1 /\ labels t2 ≡ₚ labels t1.
+Proof. exact determinism_core_parsed. Qed.
+
+Theorem C03_async_sync_agree_core_parsed : forall txt p p' pick1 f1 t1,
+  parse_string txt = POk p -> typecheck p = Accept p' -> in_fragment p' -> rt_syn_ok p = true ->
+  init_linear p' ->
+  exec_run f1 pick1 Sync (p_types p') (p_funs p') (init_config p') = RQuiescent t1 ->
+  exists n, forall pick2 f2, (n < f2)%nat ->
+    exists t2, exec_run f2 pick2 Async (p_types p') (p_funs p') (init_config p') = RQuiescent t2 /\ labels t2 ≡ₚ labels t1.
+Proof. exact async_sync_agree_core_parsed. Qed.
+
+Theorem C03_determinism_parsed : forall txt p p' md pick1 pick2 f1 f2 t1,
+  parse_string txt = POk p -> typecheck p = Accept p' -> in_fragment p' -> rt_syn_ok p = true ->
+  topo_runs p' -> is_np md = false ->
+  exec_run f1 pick1 md (p_types p') (p_funs p') (init_config p') = RQuiescent t1 -> (f1 <= f2)%nat ->
+  exists t2, exec_run f2 pick2 md (p_types p') (p_funs p') (init_config p') = RQuiescent t2 /\
+             cfg_equiv t2 t1 /\ labels t2 ≡ₚ labels t1.
+Proof. exact determinism_parsed. Qed.
+
+(* all premises decided: a program text that passes `core_premises_text` is deterministic *)
+Theorem C03_core_premises_sound : forall txt, core_premises_text txt = true ->
+  exists p p', parse_string txt = POk p /\ typecheck p = Accept p' /\
+  forall md pick1 pick2 f1 f2 t1, is_np md = false ->
+    exec_run f1 pick1 md (p_types p') (p_funs p') (init_config p') = RQuiescent t1 -> (f1 <= f2)%nat ->
+    exists t2, exec_run f2 pick2 md (p_types p') (p_funs p') (init_config p') = RQuiescent t2 /\
+               cfg_equiv t2 t1 /\ labels t2 ≡ₚ labels t1.
+Proof. exact core_premises_sound. Qed.
+
+(* nothing assumed: a channel-passing server/client program prints {served, done} under every schedule *)
+Example C03_example_every_schedule :
+  exists p p', parse_string example_text = POk p /\ typecheck p = Accept p' /\
+  forall pick f, (200 <= f)%nat ->
+    exists t, exec_run f pick Async (p_types p') (p_funs p') (init_config p') = RQuiescent t /\
+              labels t ≡ₚ ["served"; "done"].
+Proof. exact example_every_schedule. Qed.
+
 (* UNCONDITIONAL, for a syntactic class (fork-join configurations: close self / wait / new with a
    closed child / print / parameterless calls, one provider per process; `FJ c` is a structural
    property of the configuration, decided by `fj_cfg_b`): no invariant hypothesis is left. *)
@@ -365,6 +410,11 @@ Print Assumptions C03_topo_step_core.
 Print Assumptions C03_topo_reachable_core.
 Print Assumptions C03_determinism_typed_core.
 Print Assumptions C03_async_sync_agree_typed_core.
+Print Assumptions C03_determinism_core_parsed.
+Print Assumptions C03_async_sync_agree_core_parsed.
+Print Assumptions C03_determinism_parsed.
+Print Assumptions C03_core_premises_sound.
+Print Assumptions C03_example_every_schedule.
 Print Assumptions C03_init_linear_b_sound.
 Print Assumptions C03_init_linear_examples.
 Print Assumptions C03_forkjoin_invariant.
